@@ -122,16 +122,17 @@ RC=$?
 if [ "$RC" != 0 ]; then emit_part $([ "$RC" = 1 ] && echo 1 || echo 0) 0 0 1; exit "$RC"; fi
 
 # ---- 3. Miri seeds (scenario seeds derived from VERIF_SEED)
-# modes: plain = seeded random scenario on std threads; hammer = several top-level chains, many
+# modes: phased = persistent readers, in-place edits by the owner between two read phases;
+# plain = seeded random scenario on std threads; hammer = several top-level chains, many
 # concurrent reads on different start nodes (contention on any reader-written state);
 # rayon = par_iter and readers inside a rayon pool
-if [ "$TIER" = thorough ]; then PLAN="plain:6:0..8 hammer:10:0..16 rayon:4:0..8"; else PLAN="plain:1:0..3 hammer:2:0..8 rayon:1:0..3"; fi
+if [ "$TIER" = thorough ]; then PLAN="plain:6:0..8 hammer:10:0..16 phased:12:0..4 rayon:4:0..8"; else PLAN="plain:1:0..3 hammer:2:0..8 phased:3:0..2 rayon:1:0..3"; fi
 MP=0; MR=0
 for leg in $PLAN; do
   M="${leg%%:*}"; rest="${leg#*:}"; N="${rest%%:*}"; RANGE="${rest#*:}"
   W=$(( ${RANGE#*..} - ${RANGE%..*} ))
   for i in $(seq 1 $N); do
-    case $M in plain) S=$(( SEED * 1000 + i ));; hammer) S=$(( SEED * 1000 + 200 + i ));; *) S=$(( SEED * 1000 + 500 + i ));; esac
+    case $M in plain) S=$(( SEED * 1000 + i ));; hammer) S=$(( SEED * 1000 + 200 + i ));; phased) S=$(( SEED * 1000 + 300 + i ));; *) S=$(( SEED * 1000 + 500 + i ));; esac
     LOG="$VERIF/.build/parts/miri-$M-$i.log"
     if ! miri_run "$S" "$M" "$RANGE" "$LOG"; then
       RP="$RPD/C18-miri-$M-$S.json"
